@@ -106,10 +106,71 @@ def kwargs_and_binders(G, ctx):
     ctx.case(sample=case, nontrivial_key="two-forms")
 
 
+def argument_kinds(G, ctx):
+    """transform stability for every KIND of argument: Python scalars (weakly typed), committed arrays, reduced-precision and
+    narrow-integer bodies where weak-vs-strong typing changes dtype promotion, pytrees, static structure.  Each function is run
+    eagerly, under jit, under vmap over keys and under jit(vmap): identical dtype and the same draw (to rounding of compiled arithmetic) are required."""
+    import jax
+    import jax.numpy as jnp
+    import jax.random as jr
+    import numpy as np
+    normal, uniform = G.normal, G.uniform
+
+    def f16(x):      # float16 parameters: f16 * weak-float stays f16, f16 * f32 becomes f32
+        loc = jnp.asarray(0.5, jnp.float16) * x
+        return normal.sample(loc, jnp.asarray(1.0, jnp.float16))
+
+    def u8(x):       # uint8(200) + 100 wraps to 44 when the 100 is weakly typed, is 300 when it is int32
+        n = jnp.asarray(200, jnp.uint8) + x
+        return normal.sample(n.astype(jnp.float32), 0.01)
+
+    def bf16(x):
+        return uniform.sample(jnp.asarray(0.0, jnp.bfloat16), jnp.asarray(2.0, jnp.bfloat16) * x)
+
+    def tree(d):     # pytree argument mixing a Python float and an array
+        return normal.sample(d["m"] * d["w"][0], 1.0) + d["w"][1]
+
+    def f32(x):
+        return normal.sample(x * 2.0, 1.0)
+
+    fams = [("float16-params/python-float", f16, 0.7), ("uint8-arithmetic/python-int", u8, 100), ("bfloat16-params/python-float", bf16, 1.5),
+            ("float16-params/f16-array", f16, jnp.asarray(0.7, jnp.float16)), ("pytree/python-float+array", tree, {"m": 0.5, "w": (jnp.float32(2.0), 1)}),
+            ("float32/python-float", f32, 0.25), ("float32/python-bool", f32, True)]
+    keys = jr.split(jr.key(21), 3)
+    for name, f, arg in fams:
+        case = {"kind": "argument-kinds", "family": name}
+        try:
+            s = G.seed(f)
+            ax = jax.tree_util.tree_map(lambda _: None, arg)
+            outs = {
+                "eager": s(keys[0], arg),
+                "jit": jax.jit(s)(keys[0], arg),
+                "vmap-keys": jax.tree_util.tree_map(lambda a: a[0], jax.vmap(s, in_axes=(0, ax))(keys, arg)),
+                "jit(vmap)": jax.tree_util.tree_map(lambda a: a[0], jax.jit(jax.vmap(s, in_axes=(0, ax)))(keys, arg)),
+                "eager-again": s(keys[0], arg),
+            }
+        except Exception as e:
+            impl.reset_handlers()
+            ctx.property_failure(None, f"{name}: a seeded call raised {type(e).__name__}: {str(e)[:150]}", case)
+            continue
+        ref = np.asarray(outs["eager"])
+        for mode, o in outs.items():
+            o = np.asarray(o)
+            # same dtype, same draw (compiled arithmetic may differ from eager arithmetic in the last bit: XLA fuses multiply-adds)
+            if o.dtype != ref.dtype or not np.allclose(o.astype(np.float64), ref.astype(np.float64), rtol=2e-3 if ref.dtype.itemsize <= 2 else 1e-5, atol=0):
+                case.update({"mode": mode, "eager": [str(ref.dtype), ref.tolist()], "other": [str(o.dtype), o.tolist()]})
+                ctx.property_failure(None, f"{name}: seed(f)(key, arg) gives {ref.tolist()} ({ref.dtype}) eagerly but {o.tolist()} ({o.dtype}) under {mode}", case)
+                break
+        ctx.case(sample=case if name.startswith("uint8") else None, nontrivial_key=("argkind", name))
+        ctx.count("argument-kinds")
+
+
 def shard(ctx, shard_i, n):
     G = impl.load()
     rng = random.Random(ctx.seed * 977 + shard_i)
     hist = random.Random(ctx.seed * 13 + shard_i)
+    if shard_i == 1:
+        argument_kinds(G, ctx)
     if shard_i == 0:
         kwargs_and_binders(G, ctx)
         check_prog(G, ctx, [("site", 1), ("vsite", 2, 3), ("scan", [("site", 3)], 2), ("site", 4)], 42, hist)
@@ -132,6 +193,8 @@ def replay(ctx, payload):
         def tup(x):
             return [tuple(tup(z) if isinstance(z, list) else z for z in y) for y in x]
         check_prog(G, ctx, tup(json.loads(c["prog"])), c["key"], random.Random(1))
+    elif c.get("kind") == "argument-kinds":
+        argument_kinds(G, ctx)
     else:
         kwargs_and_binders(G, ctx)
     for i in ctx.issues:
